@@ -48,6 +48,22 @@ var mapKeyType = NewOneOfStringSchema[any](
 				nil,
 			),
 		),
+		"enum_integer": NewRefSchema(
+			"IntEnum",
+			NewDisplayValue(
+				PointerTo("Integer enum"),
+				nil,
+				nil,
+			),
+		),
+		"enum_string": NewRefSchema(
+			"StringEnum",
+			NewDisplayValue(
+				PointerTo("String enum"),
+				nil,
+				nil,
+			),
+		),
 	},
 	"type_id",
 	false,
